@@ -224,7 +224,37 @@ func TraceString(s *vsched.Sched) string {
 }
 
 // Explore enumerates every schedule of sc with at most sc.Bound pre-emptions.
+// Explore iterates the pre-emption bound (1, 2, ... up to the scenario's own; unbounded scenarios start with 1 and 2):
+// a counterexample with the fewest pre-emptions is found first and early, and when a deadline cuts the search the
+// lower bounds have been covered completely. The statistics returned are those of the last (widest) search, which
+// contains the earlier ones.
 func Explore(run *ev.Run, prop string, sc Scenario) Stats {
+	if (sc.Bound >= 2 || sc.Bound < 0) && !sc.OnceOnly {
+		top := sc.Bound
+		if top < 0 {
+			top = 3
+		}
+		v0 := run.Violations()
+		for b := 1; b < top; b++ {
+			lo := sc
+			lo.Bound = b
+			st := exploreBound(run, prop, lo)
+			if !st.Complete || run.Violations() > v0 {
+				st.Complete = st.Complete && false
+				st.BoundDone = b - 1
+				if run.Violations() > v0 {
+					st.BoundDone = b
+				}
+				return st
+			}
+		}
+	}
+	st := exploreBound(run, prop, sc)
+	st.BoundDone = sc.Bound
+	return st
+}
+
+func exploreBound(run *ev.Run, prop string, sc Scenario) Stats {
 	st := Stats{Distinct: map[string]int64{}, Complete: true}
 	// determinism self-test: default schedule twice
 	x1, o1, v1, e1 := runOnce(sc, nil)
